@@ -19,7 +19,12 @@ type hdrOp struct {
 	Code int      `json:",omitempty"`
 }
 
-type hdrCase struct{ Ops []hdrOp }
+type hdrCase struct {
+	Ops  []hdrOp
+	Path string `json:",omitempty"` // request path ("" = /c19); /c19p/<segment>/end matches a parameter route
+}
+
+var hdrPaths = []string{"", "", "", "/c19p/plain/end", "/c19p/a%0d%0aSet-Cookie:%20s=evil/end", "/c19p/x%0Ay/end", "/c19p/%0d/end", "/c19p/caf%C3%A9/end"}
 
 func (o hdrOp) args() []string {
 	out := make([]string, len(o.A))
@@ -32,7 +37,7 @@ func (o hdrOp) args() []string {
 // keys a script may name freely (none of them is touched by http.ServeFile / http.Error)
 var hdrKeys = []string{"X-Custom", "x-custom", "X-A", "Vary", "vary", "VARY", "Link", "link", "Set-Cookie", "Location", "location",
 	"Allow", "Content-Disposition", "X-Request-Id", "x b", "Cache-Tag"}
-var hdrVals = []string{"abc", "a b", "", "\r", "\n", "\r\n", "x\r\nSet-Cookie: evil=1", "a\nb", "a\rb", "\x00", "\t", "\x7f", "é",
+var hdrVals = []string{"abc", "intro", "../up", "edit?x=1", "a b", "", "\r", "\n", "\r\n", "x\r\nSet-Cookie: evil=1", "a\nb", "a\rb", "\x00", "\t", "\x7f", "é",
 	", ", "Accept", "Accept-Encoding", "Cookie", "accept", "Origin", "no-cache", "v\r\n\r\n<html>", "\n\n", "trail\r", "\rlead", "/p?x=1"}
 
 func hexs(ss ...string) []string {
@@ -97,7 +102,7 @@ func genHdrOp(r *hx.Rand) hdrOp {
 }
 
 func genHdr(r *hx.Rand) *hdrCase {
-	k := &hdrCase{}
+	k := &hdrCase{Path: hx.Pick(r, hdrPaths)}
 	n := r.Range(1, 5)
 	for i := 0; i < n; i++ {
 		op := genHdrOp(r)
@@ -213,7 +218,7 @@ func emitHdr(id string, k *hdrCase, st *hx.Stats) string {
 		vals [][]string
 	}
 	obs := make([]obsT, len(k.Ops))
-	serve(nil, func(c *router.Context) {
+	serveAt(k.Path, func(c *router.Context) {
 		for i, o := range k.Ops {
 			obs[i].p = doHdrOp(c, o)
 			for _, key := range allKeys[i] {
@@ -241,6 +246,9 @@ func emitHdr(id string, k *hdrCase, st *hx.Stats) string {
 	if st != nil {
 		st.Case(in[len(id):], ctl)
 		st.Count("H")
+		if strings.Contains(k.Path, "%0") {
+			st.Count("H_request_path_with_encoded_CR_LF")
+		}
 		for _, o := range k.Ops {
 			st.Count("H_op_" + o.Op)
 		}
